@@ -1674,3 +1674,109 @@ Theorem F5_nodecode_fixed_refuted :
   (exists up, serve fixed_F2 w_rules_nd false "h" "/files/x$$$escaped-slash$$$y" "" = Accepted "nd" false [("rest", "x%2Fy")] up) /\
   decode_keep_slash "x$$$escaped-slash$$$y" = "x$$$escaped-slash$$$y".
 Proof. splits; try (vm_compute; reflexivity). eexists. vm_compute. reflexivity. Qed.
+
+(** * Part F — the tree as it is now: [repaired] (fix: commits a779db8 C08-F2, 72ba5d4 C08-F3) *)
+
+Theorem reencoding_invariant_repaired rules dflt host q p p' :
+  reenc p p' -> guard_F1 rules p p' = false ->
+  decision_eq (serve repaired rules dflt host p q) (serve repaired rules dflt host p' q).
+Proof. intros R G1. apply reencoding_invariant; auto. Qed.
+
+Theorem F1_repaired_refuted : exists rules p p',
+  reenc p p' /\ guard_F1 rules p p' = true /\
+  ~ decision_eq (serve repaired rules false "h" p "") (serve repaired rules false "h" p' "").
+Proof.
+  exists w_rules_F1, "/api/admin", "/api/%61dmin". splits; try (vm_compute; reflexivity).
+  - do 5 rk. re. do 4 rk. constructor.
+  - vm_compute. intros (H & _). discriminate.
+Qed.
+
+(** C08-F3 on the tree before 72ba5d4 *)
+Theorem F3_pinned_refuted : exists rules p p',
+  reenc p p' /\ guard_F1 rules p p' = false /\ guard_F3 rules = true /\
+  ~ decision_eq (serve fixed_F2 rules false "h" p "") (serve fixed_F2 rules false "h" p' "").
+Proof. exact F3_fixed_refuted. Qed.
+
+(** an `off` rule with path_params, the parameter spelled with escapes in the request *)
+Example reencoding_invariant_repaired_nonvacuous :
+  reenc "/api/admin" "/api/%61dmi%6e" /\
+  guard_F1 w_rules_F3 "/api/admin" "/api/%61dmi%6e" = false /\
+  guard_F3 w_rules_F3 = true /\
+  (exists up, serve repaired w_rules_F3 false "h" "/api/%61dmi%6e" "" = Accepted "pp" false [("p1", "admin")] up) /\
+  reenc "/api/users/j%2Fd" "/api/users/%6A%2f%64" /\
+  guard_F1 w_rules_ok "/api/users/j%2Fd" "/api/users/%6A%2f%64" = false /\
+  exists up, serve repaired w_rules_ok false "h" "/api/users/%6A%2f%64" "" = Accepted "users" false [("id", "j%2Fd")] up.
+Proof.
+  splits; try (vm_compute; reflexivity).
+  - do 5 rk. re. do 3 rk. re. constructor.
+  - eexists. vm_compute. reflexivity.
+  - do 11 rk. re. rt. re. constructor.
+  - eexists. vm_compute. reflexivity.
+Qed.
+
+Theorem off_rejects_encoded_slash_repaired rules dflt host q p rid d cs up :
+  enc_slash p = true -> guard_F4 p = false ->
+  serve repaired rules dflt host p q = Accepted rid d cs up ->
+  d = false /\ exists r, In r rules /\ r_id r = rid /\ r_setting r <> Off.
+Proof. intros E G4. apply off_rejects_encoded_slash; auto. Qed.
+
+Theorem off_answers_precondition_repaired rules host q p :
+  enc_slash p = true -> guard_F4 p = false ->
+  (forall r, In r rules -> r_setting r = Off) ->
+  serve repaired rules true host p q = Precondition \/ serve repaired rules true host p q = BadRequest.
+Proof. intros E G4. apply off_answers_precondition; auto. Qed.
+
+Theorem F4_off_repaired_refuted : exists rules p rid cs up,
+  enc_slash p = true /\ guard_F4 p = true /\
+  (forall r, In r rules -> r_setting r = Off) /\
+  serve repaired rules true "h" p "" = Accepted rid false cs up.
+Proof.
+  exists w_rules_F4, "/a%2Fb""". do 3 eexists. splits; try (vm_compute; reflexivity).
+  intros r [<-|[]]. reflexivity.
+Qed.
+
+Theorem capture_decoding_repaired st v : wfenc v -> guard_F5 v = false ->
+  unescape_capture repaired st v = match st with On => unescape_or_empty v | _ => decode_keep_slash v end.
+Proof. intros W G5. apply capture_decoding; auto. Qed.
+
+Theorem nodecode_keeps_repaired rules dflt host q p rid cs up :
+  p <> "*" -> guard_F4 p = false -> guard_F5 p = false ->
+  (forall r, In r rules -> r_id r = rid -> r_setting r = NoDecode) ->
+  serve repaired rules dflt host p q = Accepted rid false cs up ->
+  Forall (fun kv => exists v, piece_of p v /\ snd kv = decode_keep_slash v) cs /\
+  ((forall r, In r rules -> r_id r = rid -> exists h, r_backend r = Some {| b_host := h; b_rw := None |}) ->
+   exists u', up = Some u' /\ u_rawpath u' = p /\ wire_path u' = p).
+Proof. intros S G4 G5. apply nodecode_keeps; auto. Qed.
+
+Theorem on_decodes_repaired rules dflt host q p rid cs up :
+  p <> "*" -> guard_F4 p = false -> guard_F5 p = false ->
+  (forall r, In r rules -> r_id r = rid -> r_setting r = On) ->
+  serve repaired rules dflt host p q = Accepted rid false cs up ->
+  Forall (fun kv => exists v, piece_of p v /\ snd kv = unescape_or_empty v) cs /\
+  ((forall r, In r rules -> r_id r = rid -> exists h, r_backend r = Some {| b_host := h; b_rw := None |}) ->
+   exists u', up = Some u' /\ u_rawpath u' = "" /\ u_path u' = unescape_or_empty p /\
+              enc_slash (wire_path u') = false).
+Proof. intros S G4 G5. apply on_decodes; auto. Qed.
+
+Theorem off_captures_decoded_repaired rules dflt host q p rid cs up :
+  p <> "*" -> guard_F4 p = false -> guard_F5 p = false ->
+  (forall r, In r rules -> r_id r = rid -> r_setting r = Off) ->
+  serve repaired rules dflt host p q = Accepted rid false cs up ->
+  enc_slash p = false /\
+  Forall (fun kv => exists v, piece_of p v /\ snd kv = unescape_or_empty v) cs.
+Proof. intros S G4 G5. apply off_captures_decoded; auto. Qed.
+
+Example nodecode_on_repaired_nonvacuous :
+  serve repaired w_rules_nd false "h" "/files/a%2fb/c%20d" "" =
+    Accepted "nd" false [("rest", "a%2Fb/c d")]
+      (Some {| u_scheme := "http"; u_host := "up"; u_path := "/files/a/b/c d"; u_rawpath := "/files/a%2fb/c%20d"; u_query := "" |}) /\
+  serve repaired w_rules_on false "h" "/files/a%2fb/c%20d" "" =
+    Accepted "on" false [("rest", "a/b/c d")]
+      (Some {| u_scheme := "http"; u_host := "up"; u_path := "/files/a/b/c d"; u_rawpath := ""; u_query := "" |}).
+Proof. split; vm_compute; reflexivity. Qed.
+
+Theorem F5_nodecode_repaired_refuted :
+  guard_F5 "/files/x$$$escaped-slash$$$y" = true /\
+  (exists up, serve repaired w_rules_nd false "h" "/files/x$$$escaped-slash$$$y" "" = Accepted "nd" false [("rest", "x%2Fy")] up) /\
+  decode_keep_slash "x$$$escaped-slash$$$y" = "x$$$escaped-slash$$$y".
+Proof. splits; try (vm_compute; reflexivity). eexists. vm_compute. reflexivity. Qed.
